@@ -559,6 +559,42 @@ fn hexstr_of(t: &Tab) -> String {
 }
 
 pub fn gen_c09(c: &mut Ctx) {
+    // non-ASCII characters whose code point has an ASCII hex digit as its LOW BYTE (U+0131 -> '1',
+    // U+0141 -> 'A', U+0431 -> '1', U+3042 -> 'B'), in strings of exactly the expected byte length
+    // (seed C09-l: digits decoded from `c as u8`)
+    {
+        let saved = c.enter("C09-lowbyte");
+        let two: [char; 8] = ['\u{0131}', '\u{0139}', '\u{0141}', '\u{0146}', '\u{0161}', '\u{0166}', '\u{0430}', '\u{0435}'];
+        let three: [char; 3] = ['\u{3042}', '\u{3061}', '\u{4e30}'];
+        for n in 3..=8usize {
+            let width = if n >= 6 { 16 << (n - 6) } else { 1usize << (n - 2) };
+            for ty in ["D", "S"] {
+                for k in 0..6 {
+                    let mut st = String::new();
+                    let mut bytes = 0usize;
+                    let special = if k % 3 == 2 && width >= 3 { *c.rng.pick(&three) } else { *c.rng.pick(&two) };
+                    let at = c.rng.below(width);
+                    let mut placed = false;
+                    while bytes < width {
+                        let room = width - bytes;
+                        if !placed && bytes >= at.min(width - special.len_utf8()) && room >= special.len_utf8() {
+                            st.push(special);
+                            bytes += special.len_utf8();
+                            placed = true;
+                        } else {
+                            st.push(*c.rng.pick(&['0', '1', '7', 'a', 'f', 'e']));
+                            bytes += 1;
+                        }
+                    }
+                    if placed {
+                        let hex: String = st.as_bytes().iter().map(|b| format!("{:02x}", b)).collect();
+                        p!(c, "fromhex {} {} {}", ty, n, hex);
+                    }
+                }
+            }
+        }
+        c.leave(saved);
+    }
     // the same one-digit string at the three sizes that take one digit, descending and ascending
     // (seed C09-k: a memo of the last parsed string that forgets the size)
     for ty in ["D", "S"] {
@@ -1052,6 +1088,43 @@ pub fn gen_c04(c: &mut Ctx) {
         c.leave(saved);
     }
     {
+        // NPN canonization of 8 variables (20 million steps): the model cannot follow it in the
+        // quick tier, so these lines are judged by the oracle only there - one orbit, one
+        // representative, no sampled orbit member smaller, certificate replays (seed C04-k: only
+        // n = 8, only NPN, functions like NOR2 and !xa & g)
+        let saved = c.enter("C04-npn8");
+        let cnt = if c.thorough { 32 } else { 10 };
+        for k in 0..cnt {
+            let n = 8usize;
+            let t = match k % 5 {
+                0 => {
+                    let a = c.rng.below(n);
+                    let mut b = c.rng.below(n);
+                    if a == b { b = (a + 1) % n; }
+                    Tab::from_fn(n, |m| (m >> a) & 1 == 0 && (m >> b) & 1 == 0)
+                }
+                1 | 2 => {
+                    let a = c.rng.below(n);
+                    let g = gen_tab(&mut c.rng, n);
+                    let inv = k % 5 == 1;
+                    Tab::from_fn(n, |m| (((m >> a) & 1 != 0) != inv) && g.bit(m & !(1 << a)))
+                }
+                3 => {
+                    let vars: Vec<usize> = (0..4).map(|_| c.rng.below(n)).collect();
+                    let g = c.rng.next();
+                    Tab::from_fn(n, |m| {
+                        let mut idx = 0usize;
+                        for (j, v) in vars.iter().enumerate() { idx |= ((m >> v) & 1) << j; }
+                        (g >> idx) & 1 != 0
+                    })
+                }
+                _ => gen_tab(&mut c.rng, n),
+            };
+            p!(c, "npnorbit {} {} {:x}", if k % 2 == 0 { "D" } else { "S" }, t.show(), c.rng.next());
+        }
+        c.leave(saved);
+    }
+    {
         // P canonization of 8 variables is cheap (40320 swaps): both types, in every tier
         let saved = c.enter("C04-p8");
         for k in 0..4 {
@@ -1217,6 +1290,24 @@ fn hist_token(r: &mut Rng, n: usize, allow_canon: bool) -> String {
 
 pub fn gen_c02(c: &mut Ctx) {
     gen_itera(c);
+    // equal pairs of every size, both types (the runner observes the operands between comparisons)
+    {
+        let saved = c.enter("C02-equal-pairs");
+        for n in 0..=10usize {
+            for ty in types_for(n) {
+                for _ in 0..2 {
+                    let a = gen_tab(&mut c.rng, n);
+                    p!(c, "eq {} {} {}", ty, a.show(), a.show());
+                    p!(c, "cmp {} {} {}", ty, a.show(), a.show());
+                    let mut b = a.clone();
+                    let k = c.rng.below(b.w.len());
+                    b.w[k] ^= 1;
+                    p!(c, "eq {} {} {}", ty, a.show(), b.show());
+                }
+            }
+        }
+        c.leave(saved);
+    }
     // tables that come out of the two-level forms (seed C02-k: a word-level tabulation of Soes that
     // writes a full word for the constant-one term at n <= 5)
     {
@@ -1493,7 +1584,37 @@ fn mask_of_vars(n: usize) -> u32 {
     }
 }
 
+/// lists of more than 64 terms (with repetitions) for the conversions and evaluations of the
+/// two-level forms (seed C13-l: tabulation in chunks of 64 terms with scratch that is not reset)
+fn gen_long_lists(c: &mut Ctx, what: &str) {
+    let saved = c.enter(&format!("long-{}", what));
+    for n in 1..=6usize {
+        for len in [64usize, 65, 70, 128, 129, 200] {
+            let pool_size = 1 + c.rng.below(6);
+            let mask = (1u32 << n) - 1;
+            let pool: Vec<String> = (0..pool_size)
+                .map(|_| {
+                    if what == "soes" {
+                        format!("{:x}/{}", c.rng.next() as u32 & mask, c.rng.below(2))
+                    } else {
+                        let p = c.rng.next() as u32 & c.rng.next() as u32 & mask;
+                        let q = c.rng.next() as u32 & c.rng.next() as u32 & mask & !p;
+                        format!("{:x}/{:x}", p, q)
+                    }
+                })
+                .collect();
+            let l: Vec<String> = (0..len).map(|_| c.rng.pick(&pool).clone()).collect();
+            let j = l.join(",");
+            p!(c, "{} tolut {} {}", what, n, j);
+            p!(c, "{} info {} {}", what, n, j);
+            p!(c, "{} value {} {} {:x}", what, n, j, c.rng.below(1 << n));
+        }
+    }
+    c.leave(saved);
+}
+
 pub fn gen_c13(c: &mut Ctx) {
+    gen_long_lists(c, "soes");
     // the small constructors
     for ty in ["ecube", "soes"] {
         for n in [0usize, 1, 3, 12, 32] {
@@ -1633,6 +1754,7 @@ fn scl(l: &[(u32, u32)]) -> String {
 }
 
 pub fn gen_c14(c: &mut Ctx) {
+    gen_long_lists(c, "sop");
     // the small constructors
     for ty in ["sop"] {
         for n in [0usize, 1, 3, 12, 32] {
@@ -1787,6 +1909,7 @@ fn rand_expr(r: &mut Rng, n: usize, ops: usize, kmax: usize, syms: &[&str]) -> V
 }
 
 pub fn gen_c15(c: &mut Ctx) {
+    gen_long_lists(c, "esop");
     // the small constructors
     for ty in ["esop"] {
         for n in [0usize, 1, 3, 12, 32] {
@@ -2078,7 +2201,17 @@ pub fn generate(prop: &str, thorough: bool, seed: u64) -> Vec<String> {
         _ => {}
     }
     add_cross_sequences(&mut c);
-    c.out
+    // the runner deals contiguous chunks of the workload to its threads: spread the expensive lines
+    // (NPN canonizations of 8 variables) over the whole workload so that they run in parallel
+    let (heavy, mut rest): (Vec<String>, Vec<String>) = c.out.into_iter().partition(|l| l.starts_with("npnorbit"));
+    if !heavy.is_empty() {
+        let stride = (rest.len() / (heavy.len() + 1)).max(1);
+        for (k, h) in heavy.into_iter().enumerate() {
+            let at = ((k + 1) * stride + k).min(rest.len());
+            rest.insert(at, h);
+        }
+    }
+    rest
 }
 
 /// size of the object a protocol line works on (number of variables), where the line has one
@@ -2158,7 +2291,7 @@ fn add_cross_sequences(c: &mut Ctx) {
     let mut fam: BTreeMap<(String, String), BTreeMap<usize, Vec<usize>>> = BTreeMap::new();
     for (i, l) in c.out.iter().enumerate() {
         let t: Vec<&str> = l.split_whitespace().collect();
-        if t.len() < 3 || matches!(t[0], "seq" | "hist" | "rnd" | "mip" | "mipilp" | "mipcand" | "canonseq" | "canonused" | "random") {
+        if t.len() < 3 || matches!(t[0], "seq" | "hist" | "rnd" | "mip" | "mipilp" | "mipcand" | "canonseq" | "canonused" | "random" | "npnorbit") {
             continue;
         }
         if let Some(n) = line_size(&t) {
